@@ -1,7 +1,7 @@
 use crate::id_resolver::{resolve_id, OperationType};
 use crate::output::{RedoResult, UndoResult};
-use crate::{redo_renaming, undo_renaming, History};
-use anyhow::Result;
+use crate::{redo_renaming, undo_renaming, History, LockFile};
+use anyhow::{Context, Result};
 use std::path::Path;
 
 /// Undo operation - returns structured data
@@ -20,6 +20,10 @@ pub fn undo_operation(id: &str, working_dir: Option<&Path>) -> Result<UndoResult
 
     let files_restored = entry.affected_files.len();
     let renames_reverted = entry.renames.len();
+
+    // Mutating command: hold the workspace lock while the tree is being changed
+    let _lock = LockFile::acquire(&renamify_dir)
+        .context("Failed to acquire lock for renamify operation")?;
 
     // Perform the undo
     undo_renaming(&actual_id, &renamify_dir)?;
@@ -51,6 +55,10 @@ pub fn redo_operation(id: &str, working_dir: Option<&Path>) -> Result<RedoResult
     // Calculate replacements from the entry (this is an approximation)
     // In a real implementation, we'd need to track this in the history
     let replacements = files_changed * 2; // Rough estimate
+
+    // Mutating command: hold the workspace lock while the tree is being changed
+    let _lock = LockFile::acquire(&renamify_dir)
+        .context("Failed to acquire lock for renamify operation")?;
 
     // Perform the redo
     redo_renaming(&actual_id, &renamify_dir)?;
